@@ -180,9 +180,19 @@ def run(ctx):
                 g = n.generators[0]
                 forms.append((n, g.iter, bool(g.ifs) or len(n.generators) != 1, g.target.id if isinstance(g.target, ast.Name) else None, n.key, n.value))
             if isinstance(n, ast.For) and isinstance(n.target, ast.Name):
-                for st in ast.walk(n):
-                    if isinstance(st, ast.Assign) and len(st.targets) == 1 and isinstance(st.targets[0], ast.Subscript) and isinstance(st.targets[0].value, ast.Name):
-                        forms.append((n, n.iter, st not in n.body, n.target.id, st.targets[0].slice, st.value))
+                sts_ = [st for st in ast.walk(n) if isinstance(st, ast.Assign) and len(st.targets) == 1 and isinstance(st.targets[0], ast.Subscript) and isinstance(st.targets[0].value, ast.Name)]
+                hid_ = v.cfg.by_ast.get(id(n))
+                for st in sts_:
+                    # filtered: some iteration can come back to the loop head without passing any of the stores into the same dict
+                    # (`if order is None: seq[node] = ... else: seq[node] = ...` stores on every path)
+                    same = {v.cfg_id(s2) for s2 in sts_ if norm(s2.targets[0].value) == norm(st.targets[0].value)} - {None}
+                    if st in n.body:
+                        filt_ = False
+                    elif hid_ is not None and same:
+                        filt_ = any(s0 == hid_ or (s0 not in same and v.cfg.reaches_without(s0, hid_, same)) for s0 in v.cfg.succ(hid_, "iter"))
+                    else:
+                        filt_ = True
+                    forms.append((n, n.iter, filt_, n.target.id, st.targets[0].slice, st.value))
         if not forms:
             raise AnalysisError("degree.degree_sequence: neither a dict comprehension nor a filling loop found")
         for c, it, filtered, tgt, key, val in forms:
